@@ -1,6 +1,7 @@
 //! Engine K — client simulator (C16..C18): the real `radar` / `1090` `main()` in a child process,
 //! every blocking point a seam on virtual time.
 
+pub mod c16;
 pub mod pty;
 pub mod vt;
 
@@ -12,6 +13,146 @@ use simcore::kproto::*;
 pub fn exe(name: &str) -> PathBuf {
     let me = std::env::current_exe().unwrap();
     me.parent().unwrap().join(name)
+}
+
+#[derive(Clone, Debug)]
+pub enum LogEv {
+    Connect { t: u64, what: String },
+    Rd { t: u64, kind: String, n: usize, segs: usize, total: usize },
+    Poll { t: u64, hit: bool },
+    Ev { t: u64, json: String },
+    Frame { t: u64, k: u64, total: usize },
+    Stop { t: u64 },
+    Budget,
+}
+
+impl LogEv {
+    pub fn time_us(&self) -> u64 {
+        match self {
+            LogEv::Connect { t, .. } | LogEv::Rd { t, .. } | LogEv::Poll { t, .. } | LogEv::Ev { t, .. } | LogEv::Frame { t, .. } | LogEv::Stop { t } => *t,
+            LogEv::Budget => 0,
+        }
+    }
+}
+
+fn kv(parts: &[&str], key: &str) -> usize {
+    parts.iter().find_map(|p| p.strip_prefix(key).and_then(|v| v.strip_prefix('='))).and_then(|v| v.parse().ok()).unwrap_or(0)
+}
+
+/// parse the seam log written by the child ("<seq> <now_us> <KIND> ...")
+pub fn parse_log(text: &str) -> Vec<LogEv> {
+    let mut v = vec![];
+    for line in text.lines() {
+        let parts: Vec<&str> = line.splitn(4, ' ').collect();
+        if parts.len() < 3 {
+            continue;
+        }
+        let t: u64 = parts[1].parse().unwrap_or(0);
+        let rest: Vec<&str> = parts.get(3).map(|r| r.split(' ').collect()).unwrap_or_default();
+        match parts[2] {
+            "CONNECT" => v.push(LogEv::Connect { t, what: parts.get(3).unwrap_or(&"").to_string() }),
+            "RD" => {
+                let kind = if rest.first().map(|s| s.starts_with("n=")).unwrap_or(false) { "data".to_string() } else { rest.first().unwrap_or(&"").to_string() };
+                v.push(LogEv::Rd { t, kind, n: kv(&rest, "n"), segs: kv(&rest, "segs"), total: kv(&rest, "total") });
+            }
+            "POLL" => v.push(LogEv::Poll { t, hit: rest.first() == Some(&"1") }),
+            "EV" => v.push(LogEv::Ev { t, json: parts.get(3).unwrap_or(&"").to_string() }),
+            "FRAME" => v.push(LogEv::Frame { t, k: rest.first().and_then(|s| s.parse().ok()).unwrap_or(0), total: kv(&rest, "total") }),
+            "STOP" => v.push(LogEv::Stop { t }),
+            "BUDGET" => v.push(LogEv::Budget),
+            _ => {}
+        }
+    }
+    v
+}
+
+/// "thread 'main' panicked at apps/src/radar/airplanes.rs:52:23:" -> "apps/src/radar/airplanes.rs:52"
+pub fn panic_location(stderr: &str) -> Option<String> {
+    let i = stderr.find("panicked at ")?;
+    let rest = &stderr[i + 12..];
+    let end = rest.find(|c: char| c == '\n' || c == ',').unwrap_or(rest.len());
+    let mut loc = rest[..end].trim().trim_end_matches(':').to_string();
+    // drop the column
+    let parts: Vec<&str> = loc.rsplitn(2, ':').collect();
+    if parts.len() == 2 && parts[0].chars().all(|c| c.is_ascii_digit()) {
+        loc = parts[1].to_string();
+    }
+    Some(simcore::short_loc(&loc))
+}
+
+pub struct ClientEngine {
+    pub prop: &'static str,
+}
+
+#[derive(serde::Serialize, serde::Deserialize, Clone, Debug, PartialEq)]
+pub enum KScenario {
+    C16(c16::K16),
+}
+
+impl simcore::Engine for ClientEngine {
+    type Sc = KScenario;
+    fn engine_name(&self) -> &'static str {
+        match self.prop {
+            "C16" => "K16",
+            "C17" => "K17",
+            _ => "K18",
+        }
+    }
+    fn property(&self) -> &'static str {
+        self.prop
+    }
+    fn stream(&self) -> u64 {
+        self.prop[1..].parse().unwrap_or(0)
+    }
+    fn generate(&self, rng: &mut simcore::Rng, fault_free: bool) -> KScenario {
+        match self.prop {
+            _ => KScenario::C16(c16::generate(rng, fault_free)),
+        }
+    }
+    fn execute(&self, sc: &KScenario) -> simcore::Outcome {
+        match sc {
+            KScenario::C16(s) => c16::execute(s),
+        }
+    }
+    fn shrink(&self, sc: &KScenario) -> Vec<KScenario> {
+        match sc {
+            KScenario::C16(s) => c16::shrink(s).into_iter().map(KScenario::C16).collect(),
+        }
+    }
+    fn describe(&self, sc: &KScenario) -> serde_json::Value {
+        match sc {
+            KScenario::C16(s) => c16::describe(s),
+        }
+    }
+    fn expected_probes(&self) -> Vec<&'static str> {
+        match self.prop {
+            "C16" => vec!["read_timeout_hit", "several_segments_in_one_read", "eof_seen_by_client", "airplanes_table_judged", "whole_feed_processed_at_end", "reconnect_with_aircraft_retained", "clean_exit_on_disconnect", "1090_output_equals_feed"],
+            _ => vec![],
+        }
+    }
+    fn components(&self) -> serde_json::Value {
+        serde_json::json!({
+            "real": ["the whole radar / 1090 main() compiled from /repo/apps (shadow manifest, --cfg adsb_deku_verif)", "std BufReader/read_line", "hex", "adsb_deku", "rsadsb_common", "clap", "ratatui", "crossterm output half, raw mode, mouse capture", "tracing / tracing-appender", "a kernel pty as the terminal"],
+            "simulated": ["TcpStream (connect outcomes, segmentation, arrival times vs the 50 ms read timeout, coalescing, EINTR, FIN/RST)", "crossterm::event::poll/read (scripted operator events, resizes via TIOCSWINSZ)", "time (virtual clock shared with rsadsb_common::verif_clock)", "per-iteration processing delay"],
+            "stub": ["gpsd thread (never enabled)", "--airports CSV (never given)"]
+        })
+    }
+    fn rule(&self) -> String {
+        match self.prop {
+            "C16" => "seed -> feed of 3..40 lines for 1..5 addresses (well-formed DF17/DF18 identification/position/velocity, DF11/DF4/DF5 replies, upper/lower case; malformed classes: empty, ';', '*;', too short, odd digits, non-hex, non-ASCII, invalid UTF-8, all-zero, undecodable DF, truncated frame, over-long garbage) -> segmentation (line aligned, many lines per segment, random mid-line cuts, one-byte segments, cuts before ';' / newline) with gaps from {0,1,49,50,51,60,200,5000} ms around the 50 ms read timeout, coalescing coins, processing delays, EINTR, FIN/RST at line boundaries or mid-line, refused/timed-out connects and several sessions with --retry-tcp; client = radar (pty, F3 pressed periodically, q at the end) or 1090 (stdout captured). Every 10th run has all fault kinds off. Non-trivial = at least one fault fired and one probe reached; distinct = fingerprint of seam log + terminal output.".to_string(),
+            _ => String::new(),
+        }
+    }
+    fn assumptions(&self) -> Vec<String> {
+        vec![
+            "the seam implementations model what std::net / crossterm do at those calls (WouldBlock on read timeout, Ok(0) after FIN, ConnectionReset once after RST)".into(),
+            "the reference uses the real decoder and tracker as 'what an ideal line splitter would have produced'".into(),
+            "lines whose status the feed format leaves open (no leading '*' but valid hex, CR LF endings, a cut-off line that already contains ';') are not generated".into(),
+        ]
+    }
+    fn state_measure(&self) -> &'static str {
+        "distinct (seam log, terminal output) fingerprints"
+    }
 }
 
 /// debugging aid: run one hand-written scenario and dump the frames
